@@ -19,6 +19,9 @@ from . import packages as pk
 from astropy import units as u   # noqa: E402
 
 PID = 'C02'
+# second correspondence stage: the cube / distance-dependent end-to-end pipeline model (Model/Pipeline3.lean,
+# Properties/E2E3.lean) against cube write/read -> convolve or nearest slice -> Fitter/fit() -> write_parameters
+EXTRA_HARNESS = ['harness.e2e3']
 RULE = ('cases = (aperture-dependent package in format 1 or 2 with 2..8 apertures, extinction law, aperture radii, '
         'distance range, log-distance step, A_V range, 4 sources over all flags) drawn from the quantifier of C02; a '
         'case is non-trivial when the grid has >= 2 trial distances or some theta*d lies beyond the largest aperture; '
